@@ -102,6 +102,9 @@ func (s *Style) expr(e Expr) string {
 
 var commentWords = []string{"\ufffd replaced", "\u00e9t\u00e9 \u6f22\u5b57 \U0001f600", "bomb", "scan", "loop", "ptr", "step", "gate", "clear", "imp", "launch", "decoy", "x1", "todo 2+2", "a,b", "(see below)"}
 
+// remarks that may only stand behind code (as lines of their own they would be directives)
+var trailOnly = []string{";assert 0", ";assertion: never fails", ";assert CORESIZE-CORESIZE", ";assert 1/0", ";redcode", ";name not a name", ";author nobody", ";strategy none", ";assert"}
+
 func (s *Style) comment() string {
 	if s.LongCommentPct > 0 && s.R.Intn(100) < s.LongCommentPct {
 		// a comment longer than typical I/O buffers, ASCII or multi-byte
@@ -138,6 +141,10 @@ func Render(p *Prog, s *Style) string {
 	}
 	trail := func(l string) string {
 		if s.pct(s.TrailPct) {
+			if s.R.Intn(8) == 0 {
+				// a remark behind code is a remark whatever it says: only a comment LINE starting with ;assert is an assertion
+				return l + s.opt() + trailOnly[s.R.Intn(len(trailOnly))]
+			}
 			return l + s.opt() + s.comment()
 		}
 		return l
